@@ -510,3 +510,78 @@ def with_outer_copies(rng, d):
             else:
                 parts[k] = bengen.enc(rng.choice([b"x" * 20, 7, 16384, [], {}, b""]))
     return b"d" + b"".join(bengen.enc(k) + parts[k] for k in sorted(parts)) + b"e"
+
+
+# ------------------------------------------------------------------------------------------------
+# well-formed documents in a NON-canonical encoding: exactly one defect at one node
+# ------------------------------------------------------------------------------------------------
+
+def noncanonical_documents(rng, n):
+    """Documents that denote a well-formed torrent but are not canonical bencode - a zero-padded
+    string length, an integer with a leading zero / '-0' / '+', two keys out of order, a repeated
+    key, trailing bytes - anywhere in the document (root keys, info keys, file dictionaries, path
+    lists).  None may load (C10: 'loads iff canonical ...')."""
+    import hashlib
+    out = []
+    for _ in range(n):
+        ln = rng.choice([1, 3, 4, 9])
+        pl = rng.choice([2, 4, 16])
+        npieces = (ln + pl - 1) // pl
+        info = {b"name": rng.choice([b"a", b"name", b"x.bin"]), b"piece length": pl, b"pieces": bytes(rng.randrange(256) for _ in range(20 * npieces))}
+        if rng.random() < 0.5:
+            info[b"length"] = ln
+        else:
+            info[b"files"] = [{b"length": ln, b"path": [b"d", b"f.bin"]}]
+        if rng.random() < 0.4:
+            info[b"name.utf-8"] = info[b"name"]
+        doc = {b"info": info}
+        if rng.random() < 0.6:
+            doc[b"created by"] = b"tool"
+            doc[b"creation date"] = 1000
+        sites = []
+
+        def walk(v, path):
+            if isinstance(v, bytes):
+                sites.append((path, "strlen"))
+            elif isinstance(v, int):
+                sites.append((path, "int"))
+            elif isinstance(v, list):
+                for k, x in enumerate(v):
+                    walk(x, path + (k,))
+            else:
+                if len(v) >= 2:
+                    sites.append((path, "order"))
+                sites.append((path, "dupkey"))
+                for k in sorted(v):
+                    sites.append((path + (("key", k),), "strlen"))
+                    walk(v[k], path + (k,))
+        walk(doc, ())
+        site, kind = rng.choice(sites)
+        how = rng.choice(["lead0", "neg0", "plus"]) if kind == "int" else kind
+
+        def e(v, path):
+            path = ("off",) if path is None or path[:1] == ("off",) else path
+            here = path == site
+            if isinstance(v, bytes):
+                return (b"0" if here else b"") + b"%d:" % len(v) + v
+            if isinstance(v, int):
+                if here:
+                    return {"lead0": b"i0%de" % v, "neg0": b"i-0e", "plus": b"i+%de" % v}[how]
+                return b"i%de" % v
+            if isinstance(v, list):
+                return b"l" + b"".join(e(x, path + (k,)) for k, x in enumerate(v)) + b"e"
+            keys = sorted(v)
+            if here and kind == "order":
+                j = rng.randrange(len(keys) - 1)
+                keys[j], keys[j + 1] = keys[j + 1], keys[j]
+            body = b""
+            for k in keys:
+                body += e(k, path + (("key", k),)) + e(v[k], path + (k,))
+                if here and kind == "dupkey" and k == keys[0]:
+                    body += e(k, None) + e(v[k], None)
+            return b"d" + body + b"e"
+        d = e(doc, ())
+        if rng.random() < 0.05:
+            d = e(doc, None) + rng.choice([b"e", b"\n", b"0:", b" "])       # canonical value + trailing bytes
+        out.append(d)
+    return out
